@@ -22,8 +22,8 @@ LEVEL_NOTE = ('see design/C17.md; oam.go / ppu.go / the CPU hooks are tied to th
               'correspondence and judged against the statement by the pointer-tracking oracle.')
 ASSUMPTIONS = ['values put on the bus are bytes and addresses 16 bits wide']
 ALLOWED_AXIOMS = []
-KEEP_PREFIX = 0
-MAX_REPORT = 5
+KEEP_PREFIX = 3
+MAX_REPORT = 2
 
 CODE_AT = 0xc000
 
@@ -413,7 +413,7 @@ def spec_check(cid, lines, out):
 
 
 def judge(case, impl, model):
-    dev = spec_check(case[0], case[1], impl)
+    dev = spec_check(case[0], case[1], impl) if sum(1 for l in case[1] if l == 'sys.oam') >= 2 else None
     if dev:
         return 'implementation violates the statement: ' + dev
     return ('implementation differs from the whole-machine model (the object of C17_corrupt_iff / C17_oam_change) in OAM '
@@ -424,10 +424,12 @@ def extra(check, impl_cases, model_cases, cases):
     out = []
     for cid, lines in cases:
         impl = impl_cases.get(cid)
-        if not impl or impl != model_cases.get(cid):
+        if not impl:
             continue
         dev = spec_check(cid, lines, impl)
         if dev:
+            both = impl == model_cases.get(cid)
             out.append(dict(case=cid, script=lines, impl=impl[:8], model=(model_cases.get(cid) or [])[:8],
-                            verdict='implementation AND model deviate from the statement: ' + dev))
+                            verdict=('implementation AND model deviate from the statement: ' if both else
+                                     'implementation violates the statement (pointer-tracking oracle, unshrunk case): ') + dev))
     return out
